@@ -583,6 +583,11 @@ def with_lines(gen, hot=None, p=0.25, cluster=0.5, few=0.3, stall=0.35,
                 few_sessions(rng, plan)
             race_cluster(rng, plan)
             return plan
+        if not pool and cl is not None and 'sserver' in plan and cluster \
+                and rng.random() < p * cluster:
+            # asyncio client: coincidences without pre-emption
+            client_race_cluster(rng, plan)
+            return plan
         if pool and rng.random() < p:
             line_decorate(rng, plan, [x for x in (hot or []) if x in pool],
                           sorted(set(pool)),
